@@ -98,7 +98,13 @@ Definition guard_unreserve (s0 : pset) (o : op) : bool :=
   negb (ronly s0) &&
   match o with
   | ORemoveReserved (p :: _) => memN p (reserved s0) && at_capacity s0 p
-  | OSetReserved ps => existsb (fun p => negb (memN p ps)) (reserved s0)
+  | OSetReserved ps =>
+    (* something is un-reserved, and either something is reserved first (its allocSlots may connect
+       the very peer that is then un-reserved) or an un-reserved peer is connected in a full direction *)
+    let to_remove := filter (fun p => negb (memN p ps)) (reserved s0) in
+    let to_insert := filter (fun p => negb (memN p (reserved s0))) ps in
+    negb (match to_remove with [] => true | _ => false end) &&
+    (negb (match to_insert with [] => true | _ => false end) || existsb (at_capacity s0) to_remove)
   | _ => false
   end.
 
